@@ -566,7 +566,9 @@ def runTty (f : List String) : String :=
 /-- `gpsdtx|<device hex>|<data hex>|<reply hex or E<failing socket call>>` -/
 def runGpsdTx (dev data reply : String) : String :=
   let cmd := toHex (Ubx.Gpsd.command (parseHex dev) (parseHex data))
-  if reply.startsWith "E" then
+  let reply := if reply.startsWith "T" then "E" ++ String.ofList (reply.toList.drop 1) else reply   -- a time-out is a socket error
+  if !reply.startsWith "E" && (parseHex reply).any (· ≥ 0xF8) then "EXC:UnicodeDecodeError"    -- `data.decode()` of bytes that are no text
+  else if reply.startsWith "E" then
     let op := String.ofList (reply.toList.drop 1)
     if op == "connect" || op == "settimeout" then "cmd=none ok=false"
     else if op == "sendall" || op == "recv" then s!"cmd={cmd} ok={Ubx.Gpsd.transmitOk .socketError}"
